@@ -19,6 +19,8 @@ def run (line : String) : String :=
         | "C04" :: _ => judgeC04 o
         | "C05" :: _ => judgeC05 o
         | "C06" :: _ => judgeC06 o
+        | "C07till" :: t :: "user-errors" :: _ => judgeC07till o (parseRat t) true
+        | "C07till" :: t :: _ => judgeC07till o (parseRat t)
         | "C07" :: "user-errors" :: _ => judgeC07 o true
         | "C07" :: _ => judgeC07 o
         | "C08" :: _ => judgeC08 o
